@@ -600,7 +600,7 @@ func c08TrimLF(b []byte) []byte { return bytes.Trim(b, "\n") }
 
 func runC08(c *ctx) {
 	res := c.res
-	res.Rule = "sessions: real netconf.Driver RPC sequences (1..25 calls) against the NETCONF server simulator; per call reply now / late (released between calls or emitted next to a later reply) / never; echo off / echo with read boundaries / echo sharing reads with the reply; 1.0 / 1.1 with random RFC 6242 chunkings; random read segmentations (sizes 1..400); per-call timeouts 40-80 ms; malformed stream = unsolicited, duplicate, future-id, id-0 and overflowing-id messages. non-trivial = session with >= 2 calls and at least one late or never reply or echo; distinct by plan seed. scanners: the model's delimiter / message-id scanners vs Go regexp on generated strings"
+	res.Rule = "sessions: real netconf.Driver RPC sequences (1..25 calls) against the NETCONF server simulator; per call reply now / late (released between calls or emitted next to a later reply) / never; echo off / echo with read boundaries / echo sharing reads with the reply; 1.0 / 1.1 with random RFC 6242 chunkings; random read segmentations (sizes 1..400); per-call timeouts 40-80 ms; malformed stream = unsolicited, duplicate, future-id, id-0 and overflowing-id messages. non-trivial = session with >= 2 calls and at least one late or never reply or an echoing transport; distinct by plan seed; one evaluation = one session (about 8 calls on average). scanners: the model's delimiter / message-id scanners vs Go regexp on generated strings"
 
 	// A panic in a library goroutine kills the process: the full run happens in a child process
 	// (same binary, replay "c08 all"); if it dies the parent bisects for the session that kills it.
@@ -662,7 +662,7 @@ func runC08(c *ctx) {
 			p, _ := c08Directed(n)
 			jobs = append(jobs, job{"c08 directed " + n, p})
 		}
-		nsess := c.n(260, 6000)
+		nsess := c.n(320, 5000)
 		for i := 0; i < nsess; i++ {
 			seed := c.rng.U64() >> 1
 			mc := 25
@@ -831,7 +831,13 @@ func runC08(c *ctx) {
 				sb, _ := vlib.UnHex(L.spec[k])
 				specOK = impl != "T" && bytes.Equal(c08TrimLF(o.raw), c08TrimLF(sb))
 			}
-			if impl != L.model[k] && !specOK {
+			modelSame := impl == L.model[k]
+			if !modelSame && impl != "T" && L.model[k] != "T" {
+				// line feeds around a message are not observable through Result: compare modulo them
+				mb, _ := vlib.UnHex(L.model[k])
+				modelSame = bytes.Equal(c08TrimLF(o.raw), c08TrimLF(mb))
+			}
+			if !modelSame && !specOK {
 				if impl == "T" && L.model[k] != "T" {
 					lostTiming = true // may be scheduling: decided after the slow re-run
 				}
@@ -884,7 +890,12 @@ func runC08(c *ctx) {
 		if lostTiming && !final {
 			return true
 		}
-		nontrivial := len(p.calls) >= 2
+		nontrivial := false
+		for _, cl := range p.calls {
+			if len(p.calls) >= 2 && (cl.mode != 0 || p.echo != 0) {
+				nontrivial = true
+			}
+		}
 		res.Case(p.name, nontrivial)
 		if L.dom && inProp {
 			res.InDomain++
@@ -924,13 +935,56 @@ func runC08(c *ctx) {
 		}
 		return false
 	}
+	// A reply the model says must come back did not: rule out scheduling noise by running the same
+	// session again with every timeout multiplied by 6 (bounded: a systematic loss is not noise).
+	var retry []int
 	for i := range jobs {
 		if evaluate(i, runs[i], false) {
-			// a reply the model says must come back did not: rule out scheduling by running the
-			// same session again with every timeout multiplied by 6
+			retry = append(retry, i)
+		}
+	}
+	rerun := func(idx []int, scale, max int) map[int]c08run {
+		out := map[int]c08run{}
+		var mu sync.Mutex
+		var wg2 sync.WaitGroup
+		sem := make(chan struct{}, workers)
+		for n, i := range idx {
+			if n >= max {
+				break
+			}
+			wg2.Add(1)
+			go func(i int) {
+				defer wg2.Done()
+				sem <- struct{}{}
+				r := c08Execute(jobs[i].plan, scale)
+				<-sem
+				mu.Lock()
+				out[i] = r
+				mu.Unlock()
+			}(i)
+		}
+		wg2.Wait()
+		return out
+	}
+	slow := rerun(retry, 6, 40)
+	var retry2 []int
+	for _, i := range retry {
+		if r, ok := slow[i]; ok {
 			res.Count("re-run-with-long-timeouts")
-			slow := c08Execute(jobs[i].plan, 6)
-			evaluate(i, slow, true)
+			if evaluate(i, r, false) {
+				retry2 = append(retry2, i)
+			}
+		} else {
+			evaluate(i, runs[i], true)
+		}
+	}
+	slower := rerun(retry2, 25, 6)
+	for _, i := range retry2 {
+		if r, ok := slower[i]; ok {
+			res.Count("re-run-with-very-long-timeouts")
+			evaluate(i, r, true)
+		} else {
+			evaluate(i, slow[i], true)
 		}
 	}
 	res.TracesVsImpl = len(jobs)
@@ -1015,6 +1069,8 @@ func c08cause(reason string) string {
 			out = append(out, "hash-hash-line-at-read-boundary")
 		case "ok":
 			out = append(out, "in-domain")
+		case "unattributed", "unsolicited":
+			out = append(out, r)
 		default:
 			out = append(out, "hypothesis-"+r)
 		}
